@@ -573,9 +573,10 @@ fn oracle_c12(t: &LspTrace, h: &History, stats: &mut Stats) -> Vec<Violation> {
                 let what = if is_response(&step.sent) { "client-response".to_string() } else { format!("notification={m}") };
                 out.push(viol("C12", format!("C12/response-without-request/{what}"), format!("{} is not a request but the server emitted {:?}", short(&step.sent), responses.iter().map(|r| short(r)).collect::<Vec<_>>())));
             }
-            // server -> client requests are not part of this server's repertoire
+            // server -> client requests (registerCapability, workDoneProgress/create, …) are not
+            // forbidden by the property; they are only counted
             if step.outputs.iter().any(is_request) {
-                out.push(viol("C12", "C12/server-sent-request".into(), format!("server sent a request while processing {}", short(&step.sent))));
+                stats.count("c12.server_to_client_requests");
             }
         }
         if let Some(why) = &inc.died {
